@@ -336,6 +336,7 @@ func (l *log) GetByTime(start time.Time) (message.Message, error) {
 	l.readersMu.RLock()
 	defer l.readersMu.RUnlock()
 
+	emptyHead := false
 	for i := len(l.readers) - 1; i >= 0; i-- {
 		rdr := l.readers[i]
 
@@ -354,21 +355,19 @@ func (l *log) GetByTime(start time.Time) (message.Message, error) {
 			}
 		case index.ErrTimeAfterEnd:
 			// time is between end of this and begin next
-			if i < len(l.readers)-1 {
+			if i < len(l.readers)-1 && !emptyHead {
 				nextRdr := l.readers[i+1]
-				msg, err := nextRdr.Get(message.OffsetOldest)
-				if err == index.ErrOffsetIndexEmpty {
-					// next is an empty head segment, so time is after all messages
-					return message.Invalid, errTimeNotFound
-				}
-				return msg, err
+				return nextRdr.Get(message.OffsetOldest)
 			}
+			// (the head segment was empty when we looked at it, do not look again:
+			// a concurrent publish might be filling it with messages before this time)
 			return message.Invalid, errTimeNotFound
 		case index.ErrTimeIndexEmpty:
 			// an empty head segment, try the rest
 			if i == 0 {
 				return message.Invalid, err
 			}
+			emptyHead = true
 		default:
 			return message.Invalid, err
 		}
